@@ -191,8 +191,8 @@ IteratorDictString *StringDictionaryFMINDEX::extractPrefix(uchar *str,
   delete[] prefix;
 
   if (num_occ > 0)
-    return new IteratorDictStringFMINDEX(fm_index, left, right - left + 1,
-                                         elements, maxlength);
+    return new IteratorDictStringFMINDEX(fm_index, left, right + 1, elements,
+                                         maxlength);
   else
     return NULL;
 }
